@@ -588,13 +588,20 @@ class NFA:
     def _assert(self, kind, cps, pos, lo, hi):
         ml = self.env.multiline
         if kind == 'bol':
-            return pos == lo or (ml and pos > lo and cps[pos - 1] == 0x0A)
+            if pos == lo:
+                return True
+            if not ml or pos <= lo:
+                return False
+            if 'ml-eol-chars' in self.env.quirks:
+                return cps[pos - 1] in (0x0A, 0x0D, 0x2028, 0x2029)
+            return cps[pos - 1] == 0x0A
+        eols = (0x0A, 0x0D, 0x2028, 0x2029) if 'ml-eol-chars' in self.env.quirks else (0x0A,)
         if pos == hi:
             return True
         if ml:
-            return cps[pos] == 0x0A
+            return cps[pos] in eols
         if 'dollar-final-eol' in self.env.quirks:
-            return pos + 1 == hi and cps[pos] == 0x0A
+            return (pos + 1 == hi and cps[pos] in (0x0A, 0x0D, 0x2028, 0x2029)) or (pos + 2 == hi and cps[pos] == 0x0D and cps[pos + 1] == 0x0A)
         return False
 
     def _closure(self, seeds, cps, pos, lo, hi):
@@ -696,3 +703,771 @@ def nullable_ast(n):
     if k == 'alt': return any(nullable_ast(c) for c in n[1])
     if k == 'rep': return n[2] == 0 or nullable_ast(n[1])
     raise ValueError(n)
+
+
+# ---------------------------------------------------------------------------------------------------
+#  Expression generator
+# ---------------------------------------------------------------------------------------------------
+_EASY = [ord(c) for c in 'abcxyz01 _-.:AB']
+_SPECIAL_LITS = [ord(c) for c in '.\\?*+{}()|[]^$-'] + [0x0A, 0x0D, 0x09]
+
+
+class Gen:
+    """Random expression ASTs.  dialect 'xsd' | 'xpath'.  flags (xpath): subset of 'ismx'."""
+
+    def __init__(self, rnd, dialect='xsd', flags='', maxdepth=4, budget=9):
+        self.r = rnd
+        self.xsd = dialect == 'xsd'
+        self.flags = flags
+        self.maxdepth = maxdepth
+        self.budget = budget
+        r = rnd
+        # the expression's own small alphabet: makes strings and expression interact
+        mode = r.random()
+        if mode < 0.55:
+            self.sigma = r.sample([97, 98, 99, 100], r.choice([2, 2, 3]))
+        elif mode < 0.8:
+            self.sigma = r.sample(_EASY, r.choice([2, 3]))
+        else:
+            self.sigma = r.sample(POOL_LIST, r.choice([2, 3]))
+            if r.random() < 0.5:
+                self.sigma[0] = r.choice(SUPP)
+        if 'x' in flags:
+            self.sigma = [c for c in self.sigma if c not in (0x20, 0x23)] or [97, 98]
+        # 'i' is never combined with category / multi-character escapes (the two specifications of the
+        # interaction differ between F&O editions); block escapes are case-closed by construction
+        self.allow_cat = 'i' not in flags
+        self.left = budget
+
+    def lit(self):
+        r = self.r
+        x = r.random()
+        if x < 0.8:
+            cp = r.choice(self.sigma)
+        elif x < 0.9:
+            cp = r.choice(_SPECIAL_LITS)
+        else:
+            cp = r.choice(POOL_LIST)
+        if 'x' in self.flags and cp in (0x20, 0x23, 0x09, 0x0A, 0x0D):
+            cp = self.sigma[0]
+        if not self.xsd and cp == 0x0D:
+            cp = self.sigma[0]          # CR vs '.' is edition-dependent in the XPath dialect: keep CR out
+        return ('lit', cp)
+
+    def escape_leaf(self):
+        r = self.r
+        x = r.random()
+        if x < 0.45:
+            return ('esc', r.choice('sSiIcCdDwW'))
+        if x < 0.8:
+            # bias to categories that pool characters of sigma have
+            if r.random() < 0.6:
+                g = POOL[r.choice(self.sigma)][0]
+                name = g if r.random() < 0.6 else g[0]
+            else:
+                name = r.choice(CATEGORIES)
+            return ('cat', name, r.random() < 0.3)
+        if r.random() < 0.6:
+            cp = r.choice(self.sigma)
+            cands = [b for b in BLOCK_NAMES if any(lo <= cp <= hi for lo, hi in BLOCKS[b])]
+            name = cands[0] if cands else r.choice(BLOCK_NAMES)
+        else:
+            name = r.choice(BLOCK_NAMES)
+        return ('blk', name, r.random() < 0.3)
+
+    def rng(self):
+        r = self.r
+        a = r.choice(self.sigma) if r.random() < 0.7 else r.choice(POOL_LIST)
+        if a in (0x0D,) and not self.xsd:
+            a = 97
+        span = r.choice([0, 1, 1, 2, 3, 5, 25, 300])
+        lo = max(0x20 if a >= 0x20 else a, a - r.randint(0, span))
+        hi = min(0x10FFFF, a + r.randint(0, span))
+        # keep clear of the surrogate block
+        if lo <= 0xDFFF and hi >= 0xD800:
+            lo, hi = a, a
+        return ('rng', lo, hi)
+
+    def cls(self, depth=0):
+        r = self.r
+        items = []
+        for _ in range(r.choice([1, 1, 2, 2, 3, 4])):
+            x = r.random()
+            if x < 0.4:
+                items.append(self.lit())
+            elif x < 0.8 or not self.allow_cat:
+                items.append(self.rng())
+            else:
+                e = self.escape_leaf()
+                items.append(e)
+        neg = r.random() < 0.25
+        sub = None
+        if depth < 2 and r.random() < (0.3 if self.xsd else 0.2):
+            sub = self.cls(depth + 1)
+        return ('cls', neg, items, sub)
+
+    def atom(self, depth):
+        r = self.r
+        self.left -= 1
+        x = r.random()
+        if depth < self.maxdepth and self.left > 0 and x < 0.25:
+            return ('grp', self.expr(depth + 1))
+        if x < 0.62:
+            return self.lit()
+        if x < 0.78:
+            return self.cls()
+        if x < 0.84:
+            return ('dot',)
+        if self.allow_cat:
+            return self.escape_leaf()
+        return self.lit()
+
+    def quant(self, a):
+        r = self.r
+        f = r.choice(['*', '+', '?', '{n}', '{n,}', '{n,m}', '*', '+', '?', '{n,m}'])
+        if f == '*': mn, mx = 0, None
+        elif f == '+': mn, mx = 1, None
+        elif f == '?': mn, mx = 0, 1
+        elif f == '{n}': mn = r.choice([0, 1, 2, 2, 3]); mx = mn
+        elif f == '{n,}': mn = r.choice([0, 1, 2, 3]); mx = None
+        else:
+            mn = r.choice([0, 0, 1, 1, 2]); mx = mn + r.choice([0, 1, 1, 2, 3])
+        lazy = (not self.xsd) and r.random() < 0.2
+        return ('rep', a, mn, mx, f, lazy)
+
+    def piece(self, depth):
+        a = self.atom(depth)
+        if self.r.random() < 0.4:
+            return self.quant(a)
+        return a
+
+    def branch(self, depth):
+        r = self.r
+        n = r.choice([1, 1, 2, 2, 3, 4]) if depth < 3 else r.choice([1, 2])
+        ps = []
+        for _ in range(n):
+            if self.left <= 0 and ps:
+                break
+            ps.append(self.piece(depth))
+        if not ps:
+            return ('eps',)
+        return ps[0] if len(ps) == 1 else ('seq', ps)
+
+    def expr(self, depth=0):
+        r = self.r
+        n = 1
+        if r.random() < (0.3 if depth == 0 else 0.5):
+            n = r.choice([2, 2, 3])
+        bs = []
+        for _ in range(n):
+            if r.random() < 0.04:
+                bs.append(('eps',))
+            else:
+                bs.append(self.branch(depth))
+        return bs[0] if len(bs) == 1 else ('alt', bs)
+
+    def top(self):
+        e = self.expr(0)
+        if not self.xsd and self.r.random() < 0.35:
+            # anchors at the outside of the top-level branches only (their meaning there is uncontroversial)
+            def anch(b):
+                parts = list(b[1]) if b[0] == 'seq' else ([] if b[0] == 'eps' else [b])
+                if self.r.random() < 0.6: parts.insert(0, ('bol',))
+                if self.r.random() < 0.6: parts.append(('eol',))
+                return ('seq', parts) if len(parts) != 1 else parts[0]
+            if e[0] == 'alt':
+                e = ('alt', [anch(b) for b in e[1]])
+            else:
+                e = anch(e)
+        return e
+
+
+def sample_member(ast, env, rnd, maxrep=3):
+    """a random member of L(ast) as a list of code points drawn from the pool, or None when a leaf has no
+    pool character (anchors are ignored)"""
+    out = []
+
+    def pick(leaf):
+        cands = [cp for cp in POOL_LIST if leaf_has(leaf, cp, env)]
+        if not cands:
+            raise LookupError
+        small = [c for c in cands if c < 0x80]
+        return rnd.choice(small if small and rnd.random() < 0.6 else cands)
+
+    def go(n):
+        k = n[0]
+        if is_leaf(n): out.append(pick(n))
+        elif k in ('eps', 'bol', 'eol'): pass
+        elif k == 'grp': go(n[1])
+        elif k == 'seq':
+            for c in n[1]: go(c)
+        elif k == 'alt': go(rnd.choice(n[1]))
+        elif k == 'rep':
+            hi = n[3] if n[3] is not None else n[2] + rnd.choice([0, 1, 2, maxrep, 6])
+            for _ in range(rnd.randint(n[2], hi)): go(n[1])
+    try:
+        go(ast)
+    except LookupError:
+        return None
+    return out
+
+
+def interesting_points(ast, env):
+    """pool code points at which the expression's leaves change their mind (literals, range ends +-1,
+    one member and one non-member of every escape), used for 1-character strings and alphabets"""
+    pts = []
+
+    def add(cp):
+        if cp in POOL and cp not in pts:
+            pts.append(cp)
+
+    def leafpts(l):
+        k = l[0]
+        if k == 'lit':
+            add(l[1])
+            for v in case_variants(l[1]): add(v)
+        elif k == 'rng':
+            for cp in (l[1] - 1, l[1], l[1] + 1, l[2] - 1, l[2], l[2] + 1):
+                add(cp)
+            ins = [cp for cp in POOL_LIST if l[1] <= cp <= l[2]]
+            for cp in ins[:2]: add(cp)
+        elif k == 'cls':
+            for it in l[2]: leafpts(it)
+            if l[3] is not None: leafpts(l[3])
+        elif k == 'dot':
+            for cp in (0x0A, 0x0D, 0x2028, 0x61): add(cp)
+        else:
+            yes = [cp for cp in POOL_LIST if leaf_has(l, cp, env)]
+            no = [cp for cp in POOL_LIST if not leaf_has(l, cp, env)]
+            for lst in (yes, no):
+                if lst:
+                    add(lst[0]); add(lst[len(lst) // 2]); add(lst[-1])
+    for l in leaves(ast):
+        leafpts(l)
+    return pts
+
+
+# ---------------------------------------------------------------------------------------------------
+#  Case-insensitive mode: code points outside the pool whose case relatives are pool characters.
+#  A range containing one of them (without this model knowing) could change a pool character's verdict,
+#  so generated ranges avoid them when the 'i' flag is on.
+# ---------------------------------------------------------------------------------------------------
+_TROUBLE = None
+
+
+def case_troublemakers():
+    global _TROUBLE
+    if _TROUBLE is None:
+        pool_fold = set()
+        for cp in POOL:
+            ch = chr(cp)
+            pool_fold.update((ch, ch.lower(), ch.upper(), ch.casefold(), ch.title()))
+        t = set()
+        for cp in list(range(0x80, 0xD800)) + list(range(0xE000, 0x20000)):
+            if cp in POOL:
+                continue
+            ch = chr(cp)
+            if {ch.lower(), ch.upper(), ch.casefold(), ch.title()} & pool_fold:
+                t.add(cp)
+        _TROUBLE = sorted(t)
+    return _TROUBLE
+
+
+def icase_safe(ast):
+    tr = case_troublemakers()
+
+    def rng_ok(lo, hi):
+        import bisect
+        i = bisect.bisect_left(tr, lo)
+        return not (i < len(tr) and tr[i] <= hi)
+
+    def leaf_ok(l):
+        if l[0] == 'rng':
+            return rng_ok(l[1], l[2])
+        if l[0] == 'cls':
+            return all(leaf_ok(i) for i in l[2]) and (l[3] is None or leaf_ok(l[3]))
+        return l[0] in ('lit', 'dot', 'blk')
+    return all(leaf_ok(l) for l in leaves(ast))
+
+
+def xmode_safe(ast):
+    """no white space / '#' as class member or range end (the two F&O editions differ on stripping inside classes)"""
+    bad = (0x20, 0x09, 0x0A, 0x0D, 0x23)
+
+    def leaf_ok(l):
+        if l[0] == 'lit':
+            return l[1] not in bad
+        if l[0] == 'rng':
+            return l[1] not in bad and l[2] not in bad
+        if l[0] == 'cls':
+            return all(leaf_ok(i) for i in l[2]) and (l[3] is None or leaf_ok(l[3]))
+        return True
+    return all(leaf_ok(l) for l in leaves(ast))
+
+
+def generate(rnd, dialect='xsd', flags=''):
+    """one expression AST fit for judging under the given dialect/flags"""
+    for _ in range(50):
+        g = Gen(rnd, dialect, flags, maxdepth=rnd.choice([2, 3, 4]), budget=rnd.choice([3, 5, 7, 9, 12]))
+        a = g.top()
+        if 'i' in flags and not icase_safe(a):
+            continue
+        if 'x' in flags and not xmode_safe(a):
+            continue
+        return a
+    return ('lit', 97)
+
+
+# ---------------------------------------------------------------------------------------------------
+#  Structure analysis used to name finding classes, and equivalence-preserving rewrites used to confirm them
+# ---------------------------------------------------------------------------------------------------
+def max_len_zero(n):
+    k = n[0]
+    if is_leaf(n): return False
+    if k in ('eps', 'bol', 'eol'): return True
+    if k == 'grp': return max_len_zero(n[1])
+    if k in ('seq', 'alt'): return all(max_len_zero(c) for c in n[1])
+    if k == 'rep': return n[3] == 0 or max_len_zero(n[1])
+    raise ValueError(n)
+
+
+def has_choice(n):
+    """the operand can match in more than one 'shape' (alternation or a variable quantifier inside)"""
+    for x in walk(n):
+        if x[0] == 'alt' and len(x[1]) > 1:
+            return True
+        if x[0] == 'rep' and x[2] != x[3]:
+            return True
+    return False
+
+
+def is_closure(n):
+    """what the engine compiles as a closure: every quantifier except '?' and fixed counts"""
+    return n[0] == 'rep' and n[4] != '?' and n[2] != n[3]
+
+
+def closures(ast):
+    """[(path, info)] for every closure; info: unbounded, op_nullable, op_choice, cont_nullable, cont_empty"""
+    out = []
+
+    def visit(n, path, cn, ce):
+        k = n[0]
+        if k == 'seq':
+            ch = n[1]
+            for i, c in enumerate(ch):
+                rest = ch[i + 1:]
+                visit(c, path + (i,), cn and all(nullable_ast(x) for x in rest), ce and all(max_len_zero(x) for x in rest))
+        elif k == 'alt':
+            for i, c in enumerate(n[1]):
+                visit(c, path + (i,), cn, ce)
+        elif k == 'grp':
+            visit(n[1], path + (0,), cn, ce)
+        elif k == 'rep':
+            if is_closure(n):
+                out.append((path, dict(unbounded=n[3] is None, op_nullable=nullable_ast(n[1]), op_choice=has_choice(n[1]),
+                                       cont_nullable=cn, cont_empty=ce, form=n[4])))
+            loops = n[3] is None or n[3] > 1
+            visit(n[1], path + (0,), cn, ce and not loops)
+    visit(ast, (), True, True)
+    return out
+
+
+def P_nullable_cont(info):
+    """class (a): closure whose continuation up to the end of the expression is nullable and not empty"""
+    return info['cont_nullable'] and not info['cont_empty']
+
+
+def P_end_choice(info):
+    """class (c): unbounded closure at the very end of the expression whose operand has alternatives"""
+    return info['unbounded'] and info['cont_empty'] and info['op_choice']
+
+
+def P_unbounded_nullable(info):
+    """class (b): unbounded closure over an operand that can match the empty string"""
+    return info['unbounded'] and info['op_nullable']
+
+
+def _atomize(n):
+    return n if (is_leaf(n) or n[0] == 'grp') else ('grp', n)
+
+
+def rewrite_closures(ast, pred, L):
+    """replace every closure selected by pred(info) by a union of fixed repetition counts that is equivalent
+    on strings of at most L characters"""
+    info = dict(closures(ast))
+
+    def go(n, path):
+        k = n[0]
+        if k in ('seq', 'alt'):
+            return (k, [go(c, path + (i,)) for i, c in enumerate(n[1])])
+        if k == 'grp':
+            return ('grp', go(n[1], path + (0,)))
+        if k == 'rep':
+            a = go(n[1], path + (0,))
+            inf = info.get(path)
+            if inf is not None and pred(inf):
+                hi = n[3] if n[3] is not None else max(n[2], L)
+                alts = []
+                for c in range(n[2], hi + 1):
+                    alts.append(('eps',) if c == 0 else (a if c == 1 else ('rep', a, c, c, '{n}', False)))
+                return ('grp', ('alt', alts)) if len(alts) > 1 else ('grp', alts[0])
+            return ('rep', a, n[2], n[3], n[4], n[5])
+        return n
+    return go(ast, ())
+
+
+def nonnull(n):
+    """an AST for L(n) minus the empty string, or None when that is empty.  Not defined with anchors inside."""
+    k = n[0]
+    if is_leaf(n): return n
+    if k == 'eps': return None
+    if k in ('bol', 'eol'): raise ValueError('anchor')
+    if k == 'grp':
+        x = nonnull(n[1])
+        return None if x is None else ('grp', x)
+    if k == 'alt':
+        xs = [x for x in (nonnull(c) for c in n[1]) if x is not None]
+        if not xs: return None
+        return xs[0] if len(xs) == 1 else ('alt', xs)
+    if k == 'seq':
+        ch = n[1]
+        if not ch: return None
+        a, rest = ch[0], ch[1:]
+        if not rest: return nonnull(a)
+        b = rest[0] if len(rest) == 1 else ('seq', rest)
+        if not nullable_ast(a):
+            return n
+        na, nb = nonnull(a), nonnull(b)
+        xs = []
+        if na is not None:
+            xs.append(('seq', [_atomize(na) if na[0] == 'alt' else na, _atomize(b) if b[0] == 'alt' else b]))
+        if nb is not None:
+            xs.append(nb)
+        if not xs: return None
+        return xs[0] if len(xs) == 1 else ('alt', xs)
+    if k == 'rep':
+        a, mn, mx = n[1], n[2], n[3]
+        if mx == 0: return None
+        if not nullable_ast(a):
+            if mn >= 1: return n
+            return ('rep', a, 1, mx, '{n,m}' if mx is not None else '{n,}', False)
+        na = nonnull(a)
+        if na is None: return None
+        return ('rep', _atomize(na), 1, mx, '{n,m}' if mx is not None else '{n,}', False)
+    raise ValueError(n)
+
+
+def flatten(n):
+    """normalise nesting so that render() accepts the tree (seq inside seq, alt inside seq -> group)"""
+    k = n[0]
+    if k == 'seq':
+        out = []
+        for c in n[1]:
+            c = flatten(c)
+            if c[0] == 'seq': out.extend(c[1])
+            elif c[0] == 'alt': out.append(('grp', c))
+            elif c[0] == 'eps': pass
+            else: out.append(c)
+        if not out: return ('eps',)
+        return out[0] if len(out) == 1 else ('seq', out)
+    if k == 'alt':
+        out = []
+        for c in n[1]:
+            c = flatten(c)
+            if c[0] == 'alt': out.extend(c[1])
+            else: out.append(c)
+        return ('alt', out)
+    if k == 'grp':
+        return ('grp', flatten(n[1]))
+    if k == 'rep':
+        a = flatten(n[1])
+        return ('rep', _atomize(a), n[2], n[3], n[4], n[5])
+    return n
+
+
+def rewrite_unbounded_nullable(ast):
+    """replace (X){n,} with nullable X by (X minus empty)* -- same language, outside class (b)"""
+    def go(n):
+        k = n[0]
+        if k in ('seq', 'alt'):
+            return (k, [go(c) for c in n[1]])
+        if k == 'grp':
+            return ('grp', go(n[1]))
+        if k == 'rep':
+            a = go(n[1])
+            if n[3] is None and nullable_ast(a):
+                x = nonnull(a)
+                if x is None:
+                    return ('eps',)
+                return ('rep', _atomize(x), 0, None, '*', False)
+            return ('rep', a, n[2], n[3], n[4], n[5])
+        return n
+    return flatten(go(ast))
+
+
+# ---------------------------------------------------------------------------------------------------
+#  String workload
+# ---------------------------------------------------------------------------------------------------
+def u16len(cps):
+    return sum(2 if c >= 0x10000 else 1 for c in cps)
+
+
+def to_str(cps):
+    return ''.join(map(chr, cps))
+
+
+def strings_for(ast, env, rnd, big=False, nlong=24):
+    """(alphabet, [tuple(cps)...]) -- every string up to length 4 over a 3..4 letter alphabet taken from the
+    expression's own characters plus one foreign character; every interesting point alone; members of the
+    language, their one-edit neighbours and random strings (up to 40 characters, with supplementary characters)."""
+    pts = interesting_points(ast, env)
+    if not env.xsd:
+        pts = [c for c in pts if c != 0x0D]      # '.' against CR differs between F&O editions: never asked
+    lits = [l[1] for l in leaves(ast) if l[0] == 'lit' and l[1] in POOL and (env.xsd or l[1] != 0x0D)]
+    order = []
+    for cp in lits + pts:
+        if cp not in order:
+            order.append(cp)
+    accepted = [cp for cp in order if any(leaf_has(l, cp, env) for l in leaves(ast))]
+    k = 3 if big else 2
+    alpha = []
+    src = accepted[:6]
+    rnd.shuffle(src)
+    for cp in src[:k]:
+        alpha.append(cp)
+    for cp in order:
+        if len(alpha) >= k:
+            break
+        if cp not in alpha:
+            alpha.append(cp)
+    foreign = [cp for cp in (0x71, 0x51, 0x37, 0x20AC, 0x4E00, 0x20000) if cp not in order]
+    f = rnd.choice(foreign[:3]) if foreign else next(cp for cp in POOL_LIST if cp not in order)
+    if has_anchor(ast) and rnd.random() < 0.7:
+        f = 0x0A
+    alpha.append(f)
+    seen = set()
+    out = []
+
+    def add(t):
+        t = tuple(t)
+        if t not in seen:
+            seen.add(t)
+            out.append(t)
+    import itertools
+    for L in range(5):
+        for t in itertools.product(alpha, repeat=L):
+            add(t)
+    if not env.xsd:
+        pts = [c for c in pts if c != 0x0D]
+    for cp in pts:
+        add((cp,))
+    wide = list(dict.fromkeys(order + alpha + SUPP[:3] + [0x0A, 0x20]))
+    if not env.xsd:
+        wide = [c for c in wide if c != 0x0D]
+    for i in range(nlong):
+        m = i % 3
+        s = sample_member(ast, env, rnd)
+        if s is None or m == 2:
+            s = [rnd.choice(wide) for _ in range(rnd.choice([5, 6, 8, 12, 20, 40]))]
+        elif m == 1 and s:
+            j = rnd.randrange(len(s))
+            op = rnd.random()
+            if op < 0.35: del s[j]
+            elif op < 0.7: s.insert(j, rnd.choice(wide))
+            else: s[j] = rnd.choice(wide)
+        if len(s) > 60:
+            s = s[:60]
+        if not env.xsd:
+            s = [c for c in s if c != 0x0D]
+        add(s)
+        if not env.xsd and i % 4 == 0:
+            # search semantics: embed in context
+            add([rnd.choice(wide)] * rnd.randint(1, 3) + list(s) + [rnd.choice(wide)] * rnd.randint(0, 2))
+    return alpha, out
+
+
+# ---------------------------------------------------------------------------------------------------
+#  Malformed-expression mutants: (pattern text, operator).  Every operator yields text that is outside the
+#  regex grammar of XSD 1.0 *and* 1.1 (xsd) / of F&O (xpath), whatever valid context surrounds it.
+# ---------------------------------------------------------------------------------------------------
+_BAD_ESC = 'aAbBeEfFgGhHjJkKlLmMoOqQRTuUvVxXyYzZ'
+
+
+def _ctx(rnd, dialect):
+    """a short valid context expression without top-level alternation"""
+    g = Gen(rnd, dialect, '', maxdepth=2, budget=3)
+    n = g.branch(1)
+    return render(n, dialect == 'xsd', rnd)
+
+
+def mutants(rnd, dialect, n):
+    xsd = dialect == 'xsd'
+    ops = ['unclosed-group', 'unopened-group', 'leading-quantifier', 'quantifier-after-bar', 'quantifier-after-lparen',
+           'double-quantifier', 'bad-quantity', 'unclosed-class', 'empty-class', 'empty-neg-class', 'reversed-range',
+           'bad-escape', 'trailing-backslash', 'bad-category', 'bare-close-bracket', 'bare-brace', 'bracket-in-class',
+           'lone-high-surrogate']
+    if xsd:
+        ops += ['lazy-quantifier', 'dollar-escape', 'backreference']
+    else:
+        ops += ['backref-missing-group']
+    out = []
+    for i in range(n):
+        op = ops[i % len(ops)]
+        A = _ctx(rnd, dialect) if rnd.random() < 0.7 else ''
+        B = _ctx(rnd, dialect) if rnd.random() < 0.7 else ''
+        atom = rnd.choice(['a', '.', '[ab]', '(ab)', '\\d', '\\p{L}'])
+        q = rnd.choice(['*', '+', '?', '{2}', '{1,2}', '{0,}'])
+        if op == 'unclosed-group': p = A + '(' + B
+        elif op == 'unopened-group': p = A + ')' + B
+        elif op == 'leading-quantifier': p = rnd.choice(['*', '+', '?']) + B
+        elif op == 'quantifier-after-bar': p = A + '|' + rnd.choice(['*', '+', '?']) + B
+        elif op == 'quantifier-after-lparen': p = A + '(' + rnd.choice(['*', '+', '?']) + B + ')'
+        elif op == 'double-quantifier':
+            q2 = rnd.choice(['*', '+', '{2}', '{1,}']) if (not xsd or rnd.random() < 0.7) else '?'
+            if not xsd and q2 == '?': q2 = '*'
+            p = A + atom + q + q2 + B
+        elif op == 'lazy-quantifier': p = A + atom + q + '?' + B
+        elif op == 'bad-quantity': p = A + atom + rnd.choice(['{}', '{,3}', '{2', '{2,', '{x}', '{-1}', '{2,x}', '{ 2}', '{2 }']) + B
+        elif op == 'unclosed-class': p = A + rnd.choice(['[ab', '[', '[a-', '[^a', '[a-c-[b]'])
+        elif op == 'empty-class': p = A + '[]' + rnd.choice(['', 'a', 'ab'])
+        elif op == 'empty-neg-class': p = A + '[^]' + rnd.choice(['', 'a', 'ab'])
+        elif op == 'reversed-range':
+            lo, hi = sorted(rnd.sample('abcdefgh0123456789', 2))
+            p = A + '[' + rnd.choice(['', 'x', '^']) + hi + '-' + lo + ']' + B
+        elif op == 'bad-escape': p = A + '\\' + rnd.choice(_BAD_ESC) + B
+        elif op == 'trailing-backslash': p = A + '\\'
+        elif op == 'bad-category':
+            if rnd.random() < 0.3: p = A + rnd.choice(['\\p{L', '\\p', '\\P', '\\p{', '\\p{IsGreek'])
+            else: p = A + rnd.choice(['\\p{Xx}', '\\p{}', '\\pL', '\\P{Lx}', '\\p{l}', '\\p{LU}', '\\p{Letter}', '\\p{ L}']) + B
+        elif op == 'bare-close-bracket': p = A + ']' + B
+        elif op == 'bare-brace': p = A + rnd.choice(['}', '{']) + B if A == '' or rnd.random() < 0.5 else A + '}' + B
+        elif op == 'bracket-in-class': p = A + rnd.choice(['[a[b]', '[[]', '[a[]']) + B
+        elif op == 'dollar-escape': p = A + '\\$' + B
+        elif op == 'backreference': p = '(a)' + A + '\\1' + B
+        elif op == 'backref-missing-group': p = 'a' + '\\' + rnd.choice('123') + 'b' if rnd.random() < 0.5 else '(a)\\2'
+        elif op == 'lone-high-surrogate': p = A + rnd.choice(['a', '', '[', '[a-']) + '\ud800' + rnd.choice(['', 'b', ']'])
+        else: raise ValueError(op)
+        out.append((p, op))
+    return out
+
+
+# ---------------------------------------------------------------------------------------------------
+#  JSON round trip of ASTs (witness files)
+# ---------------------------------------------------------------------------------------------------
+def ast_from_json(j):
+    tag = j[0]
+    if tag in ('seq', 'alt'):
+        return (tag, [ast_from_json(c) for c in j[1]])
+    if tag == 'grp':
+        return ('grp', ast_from_json(j[1]))
+    if tag == 'rep':
+        return ('rep', ast_from_json(j[1]), j[2], j[3], j[4], j[5])
+    if tag == 'cls':
+        return ('cls', j[1], [ast_from_json(i) for i in j[2]], ast_from_json(j[3]) if j[3] else None)
+    return tuple(j)
+
+
+class Ref:
+    """Expected observations for one expression under one dialect/flag set (both matchers behind one face)."""
+
+    def __init__(self, ast, dialect, flags='', quirks=frozenset()):
+        self.ast = ast
+        self.xsd = dialect == 'xsd'
+        self.env = Env(xsd=self.xsd, icase='i' in flags, dotall='s' in flags, multiline='m' in flags, quirks=quirks)
+        self.anch = has_anchor(ast)
+        self._d = None
+        self._n = None
+
+    @property
+    def deriv(self):
+        if self._d is None:
+            self._d = Deriv(self.ast, self.env)
+        return self._d
+
+    @property
+    def nfa(self):
+        if self._n is None:
+            self._n = NFA(self.ast, self.env)
+        return self._n
+
+    def verdict(self, cps, lo=0, hi=None):
+        """what matches() must return for the window [lo,hi) of cps"""
+        hi = len(cps) if hi is None else hi
+        if self.xsd:
+            return self.deriv.matches(cps[lo:hi])
+        return self.nfa.search(cps, lo, hi) is not None
+
+    def start(self, cps, lo=0, hi=None):
+        if self.xsd:
+            return lo if self.verdict(cps, lo, hi) else None
+        return self.nfa.search(cps, lo, hi)
+
+
+# ---------------------------------------------------------------------------------------------------
+#  One-step reductions of an AST (for shrinking a disagreement to a local minimum)
+# ---------------------------------------------------------------------------------------------------
+def reductions(ast):
+    """smaller expressions derived from ast by one local simplification (each result is render()-able)"""
+    out = []
+    seen = {repr(ast)}
+
+    def emit(n):
+        try:
+            n = flatten(n)
+            render(n)
+        except ValueError:
+            return
+        k = repr(n)
+        if k not in seen:
+            seen.add(k)
+            out.append(n)
+
+    def rec(n, put):
+        """put(x): the whole expression with n replaced by x"""
+        k = n[0]
+        if k in ('seq', 'alt'):
+            ch = n[1]
+            for i in range(len(ch)):
+                rest = ch[:i] + ch[i + 1:]
+                emit(put((k, rest) if len(rest) > 1 else (rest[0] if rest else ('eps',))))
+            for i, c in enumerate(ch):
+                emit(put(c))
+                rec(c, lambda x, i=i: put((k, ch[:i] + [x] + ch[i + 1:])))
+        elif k == 'grp':
+            emit(put(n[1]))
+            rec(n[1], lambda x: put(('grp', x)))
+        elif k == 'rep':
+            a, mn, mx, form, lazy = n[1:]
+            emit(put(a))
+            if lazy:
+                emit(put(('rep', a, mn, mx, form, False)))
+            if mn > 0:
+                emit(put(('rep', a, mn - 1, mx, '{n,m}' if mx is not None else '{n,}', lazy)))
+            if mx is not None and mx > mn:
+                emit(put(('rep', a, mn, mx - 1, '{n,m}', lazy)))
+            if mx is None:
+                emit(put(('rep', a, mn, mn + 2, '{n,m}', lazy)))
+            if form in ('*', '+', '?'):
+                emit(put(('rep', a, mn, mx, '{n,}' if mx is None else '{n,m}', lazy)))
+            rec(a, lambda x: put(('rep', _atomize(x), mn, mx, form, lazy)))
+        elif k == 'cls':
+            neg, items, sub = n[1], n[2], n[3]
+            if sub is not None:
+                emit(put(('cls', neg, items, None)))
+                rec(sub, lambda x: put(('cls', neg, items, x)) if x[0] == 'cls' else put(('cls', neg, items, ('cls', False, [x], None))))
+            if neg:
+                emit(put(('cls', False, items, sub)))
+            if len(items) > 1:
+                for i in range(len(items)):
+                    emit(put(('cls', neg, items[:i] + items[i + 1:], sub)))
+            for i, it in enumerate(items):
+                if it[0] == 'rng':
+                    if it[1] != it[2]:
+                        emit(put(('cls', neg, items[:i] + [('rng', it[1], it[1])] + items[i + 1:], sub)))
+                        emit(put(('cls', neg, items[:i] + [('rng', it[2], it[2])] + items[i + 1:], sub)))
+                    else:
+                        emit(put(('cls', neg, items[:i] + [('lit', it[1])] + items[i + 1:], sub)))
+            if not neg and sub is None and len(items) == 1 and items[0][0] != 'rng':
+                emit(put(items[0]))
+    rec(ast, lambda x: x)
+    return out
